@@ -65,6 +65,10 @@ type Program struct {
 }
 
 func loadProgram(pkgPaths []string) *Program {
+	if os.Getenv("GOSYM_LOADER") != "packages" {
+		return loadProgramLean(pkgPaths)
+	}
+	// reference front end: the whole dependency closure from source through go/packages
 	t0 := time.Now()
 	ov, err := overlayFiles()
 	if err != nil {
